@@ -254,14 +254,36 @@ Proof.
     assert (E : (s <=? pget (i, j) (nseq P)) = true) by lia. rewrite E. reflexivity.
 Qed.
 
-(* milliseconds: fresh whenever fewer changes happened than milliseconds have passed *)
-Theorem restart_seq_ms_fresh : forall t0 k t1, k < t1 - t0 -> restart_seq_fresh 1 t0 k t1.
-Proof. intros t0 k t1 H. unfold restart_seq_fresh. rewrite !N.div_1_r. lia. Qed.
+(* any unit: fresh whenever fewer changes happened than whole units have passed ("at most one change per unit of the
+   sequence clock on average") *)
+Theorem restart_seq_fresh_any_unit : forall div t0 k t1, 0 < div -> t0 <= t1 -> k < (t1 - t0) / div ->
+  restart_seq_fresh div t0 k t1.
+Proof.
+  intros div t0 k t1 Hd Hle Hk. unfold restart_seq_fresh.
+  assert (H : t0 / div + (t1 - t0) / div <= t1 / div).
+  { replace t1 with (t0 + (t1 - t0)) at 2 by lia.
+    pose proof (N.div_mod t0 div) as A. pose proof (N.div_mod (t1 - t0) div) as B.
+    assert (div <> 0) by lia. specialize (A H). specialize (B H).
+    pose proof (N.mod_lt t0 div H). pose proof (N.mod_lt (t1 - t0) div H).
+    apply N.div_le_lower_bound; [exact H|]. nia. }
+  lia.
+Qed.
 
-(* seconds: refuted — 5 changes, restart 3 s later (well inside a 30 s dead interval) *)
+(* with the clock in nanoseconds: every unit of at most a millisecond (ms, µs, ns) is fresh whenever fewer changes
+   happened than milliseconds have passed *)
+Theorem restart_seq_fresh_up_to_ms : forall div t0 k t1, 0 < div -> div <= 1000000 -> t0 <= t1 ->
+  k < (t1 - t0) / 1000000 -> restart_seq_fresh div t0 k t1.
+Proof.
+  intros div t0 k t1 Hd Hm Hle Hk. apply restart_seq_fresh_any_unit; try assumption.
+  assert ((t1 - t0) / 1000000 <= (t1 - t0) / div).
+  { apply N.div_le_compat_l. lia. }
+  lia.
+Qed.
+
+(* seconds: refuted — 5 changes, restart 3 s later (well inside a 30 s dead interval); clock in nanoseconds *)
 Theorem restart_seq_seconds_refuted : exists t0 k t1,
-  k < t1 - t0 /\ t1 - t0 < 30000 /\ ~ restart_seq_fresh 1000 t0 k t1.
-Proof. exists 0, 5, 3000. unfold restart_seq_fresh. vm_compute. repeat split; discriminate || (intro H; discriminate H). Qed.
+  k < (t1 - t0) / 1000000 /\ t1 - t0 < 30000000000 /\ ~ restart_seq_fresh 1000000000 t0 k t1.
+Proof. exists 0, 5, 3000000000. unfold restart_seq_fresh. vm_compute. repeat split; discriminate || (intro H; discriminate H). Qed.
 
 (* the same in the model: line 1 - 2 - 3; router 2 makes table changes, then restarts 3 s later with only router 1 as
    neighbour; router 1 hears the new incarnation's Sync Interest and is offered its advertisement Data.
